@@ -130,6 +130,81 @@ func codecArgs(k uint64) []string {
 	return []string{"--codec", n}
 }
 
+// damagePatch edits the text `car debug` wrote: kind 0 drops a line, 1 cuts the text short, 2 repeats a
+// line, 3 overwrites a byte, 4 changes a hunk header's line counts, 5 changes a block's mode word.
+func damagePatch(p []byte, kind, n uint64) []byte {
+	lines := bytes.SplitAfter(p, []byte("\n"))
+	pickLine := func(prefix string) int {
+		var idx []int
+		for i, l := range lines {
+			if i > 0 && bytes.HasPrefix(l, []byte(prefix)) {
+				idx = append(idx, i)
+			}
+		}
+		if len(idx) == 0 {
+			return -1
+		}
+		return idx[int(n%uint64(len(idx)))]
+	}
+	switch kind % 6 {
+	case 0:
+		if i := pickLine(""); i >= 0 {
+			lines = append(lines[:i:i], lines[i+1:]...)
+		}
+	case 1:
+		if len(p) > 20 {
+			return p[:20+int(n%uint64(len(p)-20))]
+		}
+	case 2:
+		if i := pickLine(""); i >= 0 {
+			lines = append(lines[:i+1:i+1], lines[i:]...)
+		}
+	case 3:
+		if len(p) > 20 {
+			q := append([]byte(nil), p...)
+			q[20+int(n%uint64(len(p)-20))] = byte(' ' + n%90)
+			return q
+		}
+	case 4:
+		if i := pickLine("@@ "); i >= 0 {
+			lines[i] = []byte(fmt.Sprintf("@@ -0,%d +0,%d @@\n", n%7, n%5))
+		}
+	case 5:
+		if i := pickLine("+++ "); i >= 0 {
+			f := bytes.Fields(lines[i])
+			if len(f) >= 3 {
+				f[1] = []byte([]string{"raw", "dag-json", "dag-cbor", "nonsense"}[n%4])
+				lines[i] = append(bytes.Join(f, []byte(" ")), '\n')
+			}
+		}
+	}
+	return bytes.Join(lines, nil)
+}
+
+func flagOn(flags VL, i int) bool { return i < len(flags) && vnum(flags[i]) != 0 }
+
+// verbose listing: "<codec>: <cid>" lines, everything indented belongs to the block above
+func parseVerboseList(out []byte) Val {
+	l := VL{}
+	for _, ln := range strings.Split(string(out), "\n") {
+		if ln == "" || strings.HasPrefix(ln, "\t") {
+			continue
+		}
+		i := strings.LastIndex(ln, ": ")
+		if i < 0 {
+			l = append(l, VT("unparsable"))
+			continue
+		}
+		c, err := cid.Decode(strings.TrimSpace(ln[i+2:]))
+		if err != nil {
+			l = append(l, VT("unparsable"))
+			continue
+		}
+		l = append(l, VB(c.Bytes()))
+	}
+	return l
+}
+
 func isVB(v Val) bool { _, ok := v.(VB); return ok }
 func isVL(v Val) bool { _, ok := v.(VL); return ok }
 
@@ -300,7 +375,13 @@ func runCliImpl(c *Ctx, cmd string, flags VL, files VL) Val {
 		r := carRun(c, dir, "detach-index", names[0], "out.idx")
 		return VL{VT(r.status), fileVal(filepath.Join(dir, "out.idx"))}
 	case "detachlist":
-		r := carRun(c, dir, "detach-index", "list", names[0])
+		var r cliRes
+		if flagOn(flags, 0) {
+			r = carRunIn(c, dir, []byte(files[0].(VB)), "detach-index", "list")
+			c.Count("stdin-pipe:detachlist")
+		} else {
+			r = carRun(c, dir, "detach-index", "list", names[0])
+		}
 		es := VL{}
 		for _, ln := range strings.Split(string(r.stdout), "\n") {
 			p := strings.Fields(ln)
@@ -325,15 +406,112 @@ func runCliImpl(c *Ctx, cmd string, flags VL, files VL) Val {
 			}
 		}
 		return VL{VT(r.status), data}
-	case "list":
-		r := carRun(c, dir, "list", names[0])
+	case "list": // flags (stdin verbose)
+		args := []string{"list"}
+		if flagOn(flags, 1) {
+			args = append(args, "--verbose")
+		}
+		var r cliRes
+		if flagOn(flags, 0) {
+			r = carRunIn(c, dir, []byte(files[0].(VB)), args...) // a pipe on standard input, no file argument
+			c.Count("stdin-pipe:list")
+		} else {
+			r = carRun(c, dir, append(args, names[0])...)
+		}
+		if flagOn(flags, 1) {
+			return VL{VT(r.status), parseVerboseList(r.stdout)}
+		}
 		return VL{VT(r.status), parseCidLines(r.stdout)}
+	case "listunixfs": // flags (blocks (rootvalue ...) (rootview ...))
+		st := &dagStore{sb: &sandbox{real: "/nonexistent-sandbox"}}
+		var roots []cid.Cid
+		for _, rv := range flags[1].(VL) {
+			roots = append(roots, st.build(rv))
+		}
+		if st.collision() {
+			return VL{VT("collision"), VL{}}
+		}
+		os.WriteFile(filepath.Join(dir, "u.car"), refPayload(roots, st.blks), 0o644)
+		args := []string{"list", "--unixfs"}
+		if flagOn(flags, 0) {
+			args = []string{"list", "--unixfs-blocks"}
+		}
+		r := carRun(c, dir, append(args, "u.car")...)
+		ls := VL{}
+		for _, ln := range strings.Split(string(r.stdout), "\n") {
+			if ln == "" {
+				continue
+			}
+			if flagOn(flags, 0) { // "<cid> <path>"
+				if i := strings.Index(ln, " "); i >= 0 {
+					ln = ln[i+1:]
+				}
+			}
+			ls = append(ls, VB([]byte(ln)))
+		}
+		return VL{VT(r.status), ls}
+	case "debugcompile":
+		var r1 cliRes
+		if flagOn(flags, 0) { // the archive through a pipe on standard input
+			r1 = carRunIn(c, dir, []byte(files[0].(VB)), "debug", "-o", "p.patch")
+			c.Count("stdin-pipe:debug")
+		} else {
+			r1 = carRun(c, dir, "debug", "-o", "p.patch", names[0])
+		}
+		if r1.status != "ok" {
+			return VL{VT(r1.status)}
+		}
+		r2 := carRun(c, dir, "compile", "-o", "out.car", "p.patch")
+		if r2.status != "ok" {
+			return VL{VT(r2.status)}
+		}
+		out, _ := os.ReadFile(filepath.Join(dir, "out.car"))
+		br, err := carv2.NewBlockReader(bytes.NewReader(out))
+		if err != nil {
+			return VL{VT("ok"), VT("unreadable")}
+		}
+		var bl []Blk
+		for {
+			b, err := br.Next()
+			if err != nil {
+				break
+			}
+			bl = append(bl, Blk{b.Cid(), b.RawData()})
+		}
+		sort.Slice(bl, func(i, j int) bool { return bytes.Compare(bl[i].Cid.Bytes(), bl[j].Cid.Bytes()) < 0 })
+		return VL{VT("ok"), cidsVal(br.Roots), blksVal(bl), VN(uint64(len(out))), postVal(c, dir, "out.car", true)}
+	case "compilebad":
+		// car debug, the patch text damaged, car compile: whatever compile makes of it, it must not crash, and
+		// an output it reports success for must be an archive inspect --full accepts.  (n1) = holds.
+		if r1 := carRun(c, dir, "debug", "-o", "p.patch", names[0]); r1.status != "ok" {
+			return VL{VN(1)}
+		}
+		p, _ := os.ReadFile(filepath.Join(dir, "p.patch"))
+		p = damagePatch(p, vnum(flags[0]), vnum(flags[1]))
+		os.WriteFile(filepath.Join(dir, "p.patch"), p, 0o644)
+		r2 := carRun(c, dir, "compile", "-o", "out.car", "p.patch")
+		c.Count("compilebad:compile-" + r2.status)
+		switch r2.status {
+		case "crash":
+			return VL{VN(0), VB(p)}
+		case "ok":
+			if i := carRun(c, dir, "inspect", "--full", "out.car"); i.status != "ok" {
+				return VL{VN(2), VB(p)}
+			}
+		}
+		return VL{VN(1)}
 	case "listfile":
 		r := carRun(c, dir, "list", names[0], "out.txt")
 		b, _ := os.ReadFile(filepath.Join(dir, "out.txt"))
 		return VL{VT(r.status), parseCidLines(b)}
 	case "root":
-		r := carRun(c, dir, "root", names[0])
+		var r cliRes
+		if flagOn(flags, 0) {
+			r = carRunIn(c, dir, []byte(files[0].(VB)), "root")
+			c.Count("stdin-pipe:root")
+		} else {
+			r = carRun(c, dir, "root", names[0])
+		}
 		l := parseCidLines(r.stdout)
 		if r.status != "ok" {
 			l = VL{}
@@ -368,8 +546,13 @@ func runCliImpl(c *Ctx, cmd string, flags VL, files VL) Val {
 		if vnum(flags[0]) != 0 {
 			args = append(args, "--full")
 		}
-		args = append(args, names[0])
-		r := carRun(c, dir, args...)
+		var r cliRes
+		if flagOn(flags, 1) {
+			r = carRunIn(c, dir, []byte(files[0].(VB)), args...)
+			c.Count("stdin-pipe:inspect")
+		} else {
+			r = carRun(c, dir, append(args, names[0])...)
+		}
 		if r.status != "ok" {
 			return VL{VT(r.status), VL{}}
 		}
@@ -400,7 +583,9 @@ type Arch struct {
 	storeID  bool   // the embedded index also lists identity CIDs (and the header says fully indexed)
 }
 
-func (a Arch) desc() Val { return VL{cidsVal(a.roots), blksVal(a.blks), vbool(a.nilRoots)} }
+func (a Arch) desc() Val {
+	return VL{cidsVal(a.roots), blksVal(a.blks), vbool(a.nilRoots), VN(uint64(a.ver))}
+}
 
 // buildV2 lays a CARv2 out by hand around a payload: pragma, header, padding, payload, padding, index
 // generated by the library from the payload.
